@@ -39,6 +39,8 @@ type config struct {
 	goCmd    string
 	detRuns  int
 	noMin    bool
+	replays  string
+	evidence string
 }
 
 var scratchDirs []string
@@ -434,6 +436,7 @@ type replayHead struct {
 	Property   string      `json:"property"`
 	Controlled bool        `json:"controlled"`
 	Minimised  bool        `json:"minimised"`
+	Flaky      bool        `json:"flaky,omitempty"`
 	TraceHash  string      `json:"trace_hash"`
 	Violations []Violation `json:"violations"`
 	Note       string      `json:"note,omitempty"`
@@ -484,6 +487,8 @@ func main() {
 	repoDir := fs.String("repo", "/repo", "repository under test")
 	goCmd := fs.String("go", "", "go command (default $GEOSIM_GO or go)")
 	noMin := fs.Bool("nomin", false, "do not minimise violations")
+	replays := fs.String("replays", "", "directory for replay files (default <verif>/replays)")
+	evidence := fs.String("evidence", "", "evidence file (default <verif>/evidence/<id>.json)")
 	if len(os.Args) < 3 {
 		die2("check needs a property id")
 	}
@@ -492,7 +497,7 @@ func main() {
 	if prop != "C16" {
 		die2("property %s is not decided by this engine (see MANIFEST.json not_applicable)", prop)
 	}
-	cfg := &config{prop: prop, tier: *tier, replay: *replay, seconds: *seconds, workers: *workers, keep: *keep, verifDir: *verifDir, repoDir: *repoDir, goCmd: *goCmd, noMin: *noMin}
+	cfg := &config{prop: prop, tier: *tier, replay: *replay, seconds: *seconds, workers: *workers, keep: *keep, verifDir: *verifDir, repoDir: *repoDir, goCmd: *goCmd, noMin: *noMin, replays: *replays, evidence: *evidence}
 	if cfg.tier == "" {
 		cfg.tier = os.Getenv("VERIF_TIER")
 	}
@@ -629,7 +634,18 @@ func runCheck(cfg *config) int {
 			}
 		}
 	}
-	infra = append(infra, detProblems...)
+	// A trace-hash divergence between two executions of the same run is a bug of
+	// this harness - unless the library itself contains constructs whose
+	// behaviour no user-level scheduler can own (sync.Pool, map iteration,
+	// goroutines, channels, clocks). Then it is attributed to them, reported in
+	// the evidence, and does not fail the check: verdicts (race reports, value
+	// mismatches) are sound whether or not a run replays bit-for-bit.
+	var detWarnings []string
+	if len(b.rep.Uncontrolled) > 0 {
+		detWarnings = detProblems
+	} else {
+		infra = append(infra, detProblems...)
+	}
 	sort.Strings(violFiles)
 
 	// ---- violations: one minimised replay file per distinct key
@@ -638,8 +654,12 @@ func runCheck(cfg *config) int {
 		known           bool
 	}
 	var filedV []filed
+	minStart := time.Now()
 	seenKey := map[string]bool{}
-	replayDir := filepath.Join(cfg.verifDir, "replays")
+	replayDir := cfg.replays
+	if replayDir == "" {
+		replayDir = filepath.Join(cfg.verifDir, "replays")
+	}
 	_ = os.MkdirAll(replayDir, 0o755)
 	for _, vf := range violFiles {
 		var head replayHead
@@ -668,13 +688,18 @@ func runCheck(cfg *config) int {
 		if len(filedV) >= 4 {
 			break
 		}
+		minBudget := 150.0
+		if cfg.tier == "thorough" {
+			minBudget = 600
+		}
+		noMin := cfg.noMin || time.Since(minStart).Seconds() > minBudget
 		base := strings.TrimSuffix(filepath.Base(vf), ".json")
 		dst := filepath.Join(replayDir, fmt.Sprintf("C16-seed%d-%s.json", cfg.seed, strings.TrimPrefix(base, "viol-")))
-		if cfg.noMin {
+		if noMin {
 			bts, _ := os.ReadFile(vf)
 			_ = os.WriteFile(dst, bts, 0o644)
 		} else {
-			secs := "90"
+			secs := "75"
 			if cfg.tier == "thorough" {
 				secs = "240"
 			}
@@ -775,7 +800,7 @@ func runCheck(cfg *config) int {
 			"stray_goroutine_runs":             agg.StrayRuns,
 			"watchdog_restarts":                br.watchdogs,
 			"pool_build_rejections":            agg.BuildErrors,
-			"determinism_selftest":             map[string]interface{}{"runs_compared": detRuns, "processes": detProcs, "divergences": len(detProblems)},
+			"determinism_selftest":             map[string]interface{}{"runs_compared": detRuns, "processes": detProcs, "divergences": len(detProblems), "attributed_to_library_constructs": detWarnings},
 			"race_detector":                    agg.Race,
 			"race_detector_settings":           "GORACE=" + raceOpts,
 			"toolchain":                        b.goVer,
@@ -794,7 +819,10 @@ func runCheck(cfg *config) int {
 			"regions holding a library lock / inside sync.Once are never split (removes interleavings, cannot add a false alarm); lock-order deadlocks are not explored",
 		},
 	}
-	evPath := filepath.Join(cfg.verifDir, "evidence", cfg.prop+".json")
+	evPath := cfg.evidence
+	if evPath == "" {
+		evPath = filepath.Join(cfg.verifDir, "evidence", cfg.prop+".json")
+	}
 	_ = os.MkdirAll(filepath.Dir(evPath), 0o755)
 	if err := writeJSON(evPath, ev); err != nil {
 		die2("cannot write evidence: %v", err)
@@ -864,7 +892,7 @@ func runReplay(cfg *config, b *built, outDir string, kf *KnownFindings) int {
 		die2("replay file: %v", err)
 	}
 	repeat := "1"
-	if !head.Controlled {
+	if !head.Controlled || head.Flaky {
 		repeat = "50"
 	}
 	type outcome struct {
@@ -884,7 +912,7 @@ func runReplay(cfg *config, b *built, outDir string, kf *KnownFindings) int {
 			die2("replay output: %v", err)
 		}
 		outs = append(outs, o)
-		if !head.Controlled {
+		if !head.Controlled || head.Flaky {
 			break
 		}
 	}
